@@ -53,6 +53,12 @@ def make_rows(r, n, idkind):
     # the two reference targets also point at each other, so that the *last* segment of a path can be a reference
     rows = [{'id': mkid('x'), 'a': NUM(5), 'b': ('str', 'm'), 'c': D.MARKER, 'r': ('ref', 'y', None)},
             {'id': mkid('y'), 'a': NUM(6, 'kg'), 'b': ('str', 'z'), 'r': ('ref', 'x', None)}]
+    # cross rows: every combination of the values that look alike across kinds (5, 5kg, 5m, ...) on two tags, so that
+    # two literals of one filter can interact (a number and a quantity of equal magnitude, equal texts of other kinds)
+    alike = [NUM(5), NUM(5, 'kg'), NUM(5, 'm'), NUM(4, 'kg'), ('str', 'm'), ('uri', 'm'), ('bool', True), NUM(1)]
+    for va in alike:
+        for vb in alike:
+            rows.append({'a': va, 'b': vb, 'c': va})
     maxlen = max(len(POOL['a']), n)
     for i in range(maxlen):
         row = {}
@@ -85,7 +91,8 @@ def atoms_core():
     A += [('has', ['a']), ('not', ['a']), ('has', ['b']), ('not', ['c']), ('has', ['r', 'a']), ('not', ['r', 'b'])]
     A += [('cmp', '==', ['a'], LITS['num']), ('cmp', '<', ['a'], LITS['num']), ('cmp', '>=', ['a'], LITS['num']),
           ('cmp', '!=', ['b'], LITS['str']), ('cmp', '<=', ['b'], LITS['str']), ('cmp', '==', ['c'], LITS['bool']),
-          ('cmp', '>', ['a'], LITS['qty']), ('cmp', '==', ['r', 'a'], LITS['num'])]
+          ('cmp', '>', ['a'], LITS['qty']), ('cmp', '==', ['r', 'a'], LITS['num']),
+          ('cmp', '==', ['b'], LITS['num']), ('cmp', '==', ['a'], LITS['qty']), ('cmp', '>=', ['c'], LITS['qty'])]
     return A
 
 
